@@ -14,12 +14,17 @@ def corpus_files(pid, group):
     return out
 
 
-def cover_wanted(spec, tier, shard, mode):
+def extra_seeds(spec, tier, seed):
+    n = spec.get("quick_extra_seeds", 3) if tier == "quick" else 0
+    return [str(int(seed) + 7919 * (j + 1)) for j in range(n)]
+
+
+def cover_wanted(spec, tier, shard, mode, env=None):
     """contract statement coverage is measured on corpus replays and on the generated cases of the quick tier
     (all shards) / of the first shard of the thorough tier (the VM hook costs time)"""
-    if spec.get("cover") is False or os.environ.get("VERIF_NO_COVER"):
+    if spec.get("cover") is False or os.environ.get("VERIF_NO_COVER") or (env or {}).get("VERIF_NO_COVER"):
         return False
-    return mode == "replay" or tier == "quick" or shard.startswith("0/")
+    return mode == "replay" or tier == "quick"
 
 
 def merge_cover(runs, spec):
@@ -76,11 +81,11 @@ def merge_cover(runs, spec):
 def one_run(spec, hbin, outdir, seed, tier, mode="gen", ops=None, shard="0/1", extra_env=None):
     """harness + driver + diff for one shard; returns a dict"""
     extra_env = dict(extra_env or {})
-    if cover_wanted(spec, tier, shard, mode):
+    if cover_wanted(spec, tier, shard, mode, extra_env):
         extra_env["VERIF_COVER"] = os.path.join(outdir, "cover.json")
     rc, out = C.run_harness(hbin, outdir, seed, tier, mode=mode, ops=ops, shard=shard, extra_env=extra_env)
     res = dict(rc=rc, out=out, outdir=outdir, monitor=C.load_monitor(outdir), stats=C.load_stats(outdir),
-               lines=0, diffs=[], branches={}, bad_cases=0, crashed=rc != 0)
+               lines=0, diffs=[], branches={}, bad_cases=0, crashed=rc != 0, seed=seed)
     if spec.get("driver") and os.path.exists(os.path.join(outdir, "ops.txt")):
         drc, derr = C.run_driver(spec["driver"], os.path.join(outdir, "ops.txt"), os.path.join(outdir, "model.txt"))
         n, diffs, branches, bad = C.diff_streams(os.path.join(outdir, "ops.txt"), os.path.join(outdir, "impl.txt"),
@@ -142,10 +147,19 @@ def run(pid, spec, tier, seed):
                 r["corpus"] = os.path.relpath(cf, C.VERIF)
                 runs.append(r)
             shards = spec.get("shards", {}).get(tier, 1)
-            with ThreadPoolExecutor(max_workers=min(shards, 16)) as ex:
+            with ThreadPoolExecutor(max_workers=16) as ex:
                 futs = [ex.submit(one_run, spec, hbin, os.path.join(wd, "gen%d" % s), seed, tier, "gen", None,
                                   "%d/%d" % (s, shards), spec.get("env")) for s in range(shards)]
+                # the quick tier also runs the generator under further seeds derived from the given one (in parallel,
+                # without the coverage hook): the directed cases repeat, the random parts differ
+                xseeds = extra_seeds(spec, tier, seed)
+                for j, xs in enumerate(xseeds):
+                    futs += [ex.submit(one_run, spec, hbin, os.path.join(wd, "gen%d_x%d" % (s, j)), xs, tier, "gen", None,
+                                       "%d/%d" % (s, shards), dict(spec.get("env") or {}, VERIF_NO_COVER="1"))
+                             for s in range(shards)]
                 runs += [f.result() for f in futs]
+                if xseeds:
+                    notes.append("generated cases were run under seeds %s" % ", ".join([str(seed)] + xseeds))
 
         # 3. verdict
         known = C.known_findings()
@@ -154,7 +168,7 @@ def run(pid, spec, tier, seed):
             if r["crashed"]:
                 tail = r["out"][-2500:]
                 rp = C.write_replay(pid, "harness", dict(property=pid, kind="harness-crash", corpus=r.get("corpus"),
-                                                        detail=tail, seed=seed, tier=tier,
+                                                        detail=tail, seed=r.get("seed", seed), tier=tier,
                                                         note="the harness could not execute its cases on the working tree"))
                 violations.append(("harness", rp, " no-failing-input-found"))
             for v in r["monitor"]:
@@ -178,18 +192,18 @@ def run(pid, spec, tier, seed):
             if hbin and len(seen) <= 3:
                 ops = shrink(pid, spec, hbin, wd, ops, v, seed, tier)
             rp = C.write_replay(pid, "input", dict(property=pid, kind="monitor", site=v["site"], what=v["what"],
-                                                  detail=v["detail"], ops=ops, seed=seed, tier=tier,
+                                                  detail=v["detail"], ops=ops, seed=r.get("seed", seed), tier=tier,
                                                   rerun="./check %s --replay <this file>" % pid,
                                                   broken_obligations=proof_broken))
             violations.append(("input", rp, ""))
         if not mon_hits:
-            diffs = [d for r in runs for d in r["diffs"]]
+            diffs = [dict(d, seed=r.get("seed", seed)) for r in runs for d in r["diffs"]]
             if diffs:
                 d = diffs[0]
                 rp = C.write_replay(pid, "corr", dict(property=pid, kind="correspondence",
                                                      names="correspondence Model.%s vs contract, case %s op #%d" % (spec.get("driver"), d["case"], d["index"]),
                                                      op=d["op"], impl=d["impl"], model=d["model"], ops=d["ops_prefix"],
-                                                     seed=seed, tier=tier, n_diverging_cases=sum(r["bad_cases"] for r in runs)))
+                                                     seed=d["seed"], tier=tier, n_diverging_cases=sum(r["bad_cases"] for r in runs)))
                 violations.append(("corr", rp, " no-failing-input-found"))
             if proof_broken:
                 payload = dict(property=pid, kind="proof-obligation", theorems=proof_broken,
@@ -257,6 +271,8 @@ def finish(pid, spec, tier, seed, t0, audit, runs, nviol, notes, extra):
     lines = 0
     for r in runs:
         for k, n in (r["stats"].get("stats") or {}).items():
+            if k == "distinct" and str(r.get("seed", seed)) != str(seed):
+                continue    # distinct (op, observation) pairs are counted for the runs under the given seed only
             stats[k] = stats.get(k, 0) + n
         for s in (r["stats"].get("samples") or []):
             if len(samples) < 4:
